@@ -274,6 +274,15 @@ fn current_clock() -> Clock {
     })
 }
 
+/// For level A/B suites that call program functions directly (no transaction): install the stubs
+/// and set the clock returned by `Clock::get()`.
+pub fn set_global_clock(unix_timestamp: i64) {
+    install_stubs();
+    ctx(|c| {
+        c.unix_timestamp = unix_timestamp;
+    });
+}
+
 fn install_stubs() {
     use std::sync::Once;
     static ONCE: Once = Once::new();
